@@ -221,10 +221,19 @@ func ParseDateTime(value string) (*dtpb.DateTime, error) {
 	for _, format := range dateFormats {
 		t, err = time.Parse(format.format, value)
 		if err == nil {
+			precision := format.precision
+			// time.Parse accepts a fractional second even if the layout has none
+			// (e.g. ".5"): the precision must cover the digits that were read.
+			if precision == dtpb.DateTime_SECOND && t.Nanosecond() != 0 {
+				precision = dtpb.DateTime_MILLISECOND
+				if t.Nanosecond()%int(time.Millisecond) != 0 {
+					precision = dtpb.DateTime_MICROSECOND
+				}
+			}
 			return &dtpb.DateTime{
 				ValueUs:   t.UnixMicro(),
 				Timezone:  extractTimezone(t),
-				Precision: format.precision,
+				Precision: precision,
 			}, nil
 		}
 	}
@@ -269,10 +278,19 @@ func ParseInstant(value string) (*dtpb.Instant, error) {
 	for _, format := range dateFormats {
 		t, err = time.Parse(format.format, value)
 		if err == nil {
+			precision := format.precision
+			// time.Parse accepts a fractional second even if the layout has none
+			// (e.g. ".5"): the precision must cover the digits that were read.
+			if precision == dtpb.Instant_SECOND && t.Nanosecond() != 0 {
+				precision = dtpb.Instant_MILLISECOND
+				if t.Nanosecond()%int(time.Millisecond) != 0 {
+					precision = dtpb.Instant_MICROSECOND
+				}
+			}
 			return &dtpb.Instant{
 				ValueUs:   t.UnixMicro(),
 				Timezone:  extractTimezone(t),
-				Precision: format.precision,
+				Precision: precision,
 			}, nil
 		}
 	}
@@ -339,9 +357,18 @@ func ParseTime(value string) (*dtpb.Time, error) {
 		// form a time of '0', e.g. it forces all times to be relative to the
 		// unix epoch.
 		value := t.UnixMicro() - yearZeroBase.UnixMicro()
+		precision := format.precision
+		// time.Parse accepts a fractional second even if the layout has none
+		// (e.g. ".5"): the precision must cover the digits that were read.
+		if precision == dtpb.Time_SECOND && t.Nanosecond() != 0 {
+			precision = dtpb.Time_MILLISECOND
+			if t.Nanosecond()%int(time.Millisecond) != 0 {
+				precision = dtpb.Time_MICROSECOND
+			}
+		}
 		return &dtpb.Time{
 			ValueUs:   value,
-			Precision: format.precision,
+			Precision: precision,
 		}, nil
 	}
 	return nil, fmt.Errorf("unable to parse time '%v': %w", value, err)
